@@ -17,6 +17,8 @@ from fractions import Fraction
 from vlib import engine as E
 from vlib.engine import And, Or, Not, Implies
 
+from . import props
+
 EPS = Fraction(1, 10**6)
 # bounds are SOFT walls of weight 1e10 (removeOverlap.py): n unit-weight items whose targets lie up to 2e4 away
 # (the value box) displace a wall by at most n * 2e4 / 1e10 <= 8e-6.  EPS_WALL absorbs that code constant.
@@ -101,7 +103,35 @@ def gaps_of(out, s, line=2):
     return g
 
 
-# ------------------------------------------------------------------------------------ symbolic
+# ------------------------------------------------------------------------------------ both modes
+def _layer_view(cfg, sy, out, num):
+    """the layer in the order the code laid it out, with TRUE targets (independent of the code's own targetPos
+    attribute): the data position for items without a parent, the parent stub's final position otherwise -- by
+    construction both are the harness variable t_i"""
+    tg = [num(sy["t"][o.vid]) for o in out]
+    wd = [num(sy["w"][o.vid]) for o in out]
+    cur = [num(o.currentPos) for o in out]
+    stubs = [is_stub(cfg["kinds"][o.vid]) for o in out]
+    tag = "".join(cfg["kinds"][o.vid] for o in out)
+    return tg, wd, stubs, cur, tag
+
+
+def _assert(sink, cfg, sy, out, want, num):
+    if sorted(o.vid for o in out) != list(range(cfg["n"])):
+        sink.check("layer-is-a-permutation-of-the-input", False)
+        return
+    tg, wd, stubs, cur, tag = _layer_view(cfg, sy, out, num)
+    s = num(sy["s"])
+    lo = None if sy["lo"] is None else num(sy["lo"])
+    hi = None if sy["hi"] is None else num(sy["hi"])
+    if want == "C01":
+        props.c01(sink, tg, wd, stubs, cur, s, tag)
+    elif want == "C02":
+        props.c02(sink, tg, wd, stubs, cur, s, lo, hi, tag)
+    elif want == "C03":
+        props.c03(sink, tg, wd, stubs, cur, s, lo, hi, tag)
+
+
 def run(e, cfg, want):
     from labella import removeOverlap as ro
 
@@ -109,179 +139,10 @@ def run(e, cfg, want):
         return e.real(name, lo, hi, lo_strict=strict)
 
     nodes, opts, sy = build(cfg, val)
-    lo, hi, s = sy["lo"], sy["hi"], sy["s"]
-    if cfg.get("ordered_walls") and lo is not None and hi is not None:
-        e.assume(lo <= hi)
+    if cfg.get("ordered_walls") and sy["lo"] is not None and sy["hi"] is not None:
+        e.assume(sy["lo"] <= sy["hi"])
     out = ro.removeOverlap(list(nodes), opts)
-    m = len(out)
-    tg = [o.targetPos for o in out]
-    cur = [o.currentPos for o in out]
-    wd = [o.width for o in out]
-    gaps = gaps_of(out, s)
-    fits = True
-    if lo is not None and hi is not None:
-        fits = sum(wd) + sum(g - (a + b) / 2 for g, a, b in zip(gaps, wd, wd[1:])) <= hi - lo
-    tag = "".join(cfg["kinds"][o.vid] for o in out)
-    if want == "C01":
-        # order of targets
-        e.check("order-targets", And(*[tg[k] <= tg[k + 1] for k in range(m - 1)]))
-        # (order of the POSITIONS is implied by the signed separation below + integrality whenever the
-        #  required gap exceeds 1e-6; below that the solver's own 1e-10 tolerance decides and nothing is claimed)
-        # separation, every pair, chain form (see module doc of C01)
-        props = []
-        for i in range(m):
-            acc = 0
-            for j in range(i + 1, m):
-                acc = acc + gaps[j - 1]
-                props.append(cur[j] - cur[i] >= acc - 1 - EPS)
-        e.check("separation", And(*props), info=tag)
-        e.check("integer-positions", all(isinstance(c, (int, E.SymInt)) for c in cur))
-    if want == "C03":
-        if lo is not None or hi is not None:
-            p1 = []
-            if lo is not None:
-                p1 += [cur[k] - wd[k] / 2 >= lo - Fraction(1, 2) - EPS_WALL for k in range(m)]
-            if hi is not None:
-                p1 += [cur[k] + wd[k] / 2 <= hi + Fraction(1, 2) + EPS_WALL for k in range(m)]
-            r = e.check("inside-when-fits", And(*p1), assumptions=[fits], info=tag)
-            if fits is not True and r != "unreachable":
-                if not e.reachable([fits]):
-                    e.events.append(("fits-unreachable",))
-                    e.stats.__dict__["fits_unreachable"] = e.stats.__dict__.get("fits_unreachable", 0) + 1
-        # spill: the separation is kept in full (span >= sum of the required gaps - 1)
-        if m > 1:
-            e.check("spill-keeps-span", cur[m - 1] - cur[0] >= sum(gaps) - 1 - EPS, info=tag)
-    if want == "C02":
-        import z3
-
-        xs = [z3.Real("xs%d" % i) for i in range(m)]
-        lam = [z3.Real("lam%d" % i) for i in range(m + 1)]
-        T = [e.term(x) for x in tg]
-        W = [e.term(x) for x in wd]
-        G = [e.term(g) for g in gaps]
-        cons = []
-        sl = [xs[0] - W[0] / 2 - e.term(lo) if lo is not None else None]
-        for i in range(m - 1):
-            sl.append(xs[i + 1] - xs[i] - G[i])
-        sl.append(e.term(hi) - xs[m - 1] - W[m - 1] / 2 if hi is not None else None)
-        for k, s_ in enumerate(sl):
-            if s_ is None:
-                cons.append(lam[k] == 0)
-            else:
-                cons += [s_ >= 0, lam[k] >= 0, z3.Or(lam[k] == 0, s_ == 0)]
-        for i in range(m):
-            cons.append(2 * (xs[i] - T[i]) - lam[i] + lam[i + 1] == 0)
-        tol = Fraction(1, 2) + Fraction(1, 100)
-        ztol = z3.Q(tol.numerator, tol.denominator)
-        C = [e.term(c) for c in cur]
-        good = z3.And(*[z3.And(C[i] - xs[i] <= ztol, xs[i] - C[i] <= ztol) for i in range(m)])
-        assumptions = [fits]
-        if fits is False:
-            e.stats.__dict__["fits_unreachable"] = e.stats.__dict__.get("fits_unreachable", 0) + 1
-            return
-        # oracle must be satisfiable on this path (else the check would be vacuous)
-        if not e.reachable(assumptions, cons):
-            if e.reachable(assumptions):
-                e.gap("KKT oracle unsatisfiable although the layer fits")
-            e.stats.__dict__["fits_unreachable"] = e.stats.__dict__.get("fits_unreachable", 0) + 1
-            return
-        zfit = [] if fits is True else [E._b(fits).z3(e)]
-        r = e._check(*(zfit + cons + [z3.Not(good)]))
-        e.stats.checks += 1
-        if r == z3.unsat:
-            e.stats.checks_unsat += 1
-        elif r == z3.sat:
-            e.stats.checks_sat += 1
-            e.findings.append(dict(check="kkt-optimal", inputs={k: str(v) for k, v in e._model_to_base(e.solver.model()).items()}, deferred=len(e.deferred), info=tag, prefix=[]))
-        else:
-            e.stats.checks_unknown += 1
-            e.stats.gaps.append("unknown on kkt-optimal")
-        # corollary: enough room around every target => nothing moves (cur = round(target))
-        room = And(*[tg[k + 1] - tg[k] >= gaps[k] for k in range(m - 1)])
-        if lo is not None:
-            room = And(room, tg[0] - wd[0] / 2 >= lo)
-        if hi is not None:
-            room = And(room, tg[m - 1] + wd[m - 1] / 2 <= hi)
-        stay = And(*[And(cur[k] - tg[k] <= Fraction(1, 2) + EPS, tg[k] - cur[k] <= Fraction(1, 2) + EPS) for k in range(m)])
-        e.check("not-moved-when-room", stay, assumptions=[room], info=tag)
-
-
-# ------------------------------------------------------------------------------------ concrete
-def exact_qp(t, gaps, w, lo, hi):
-    """exact optimum of  min sum (x_k - t_k)^2  s.t. x_{k+1}-x_k >= gap_k, x_0 - w_0/2 >= lo, x_last + w_last/2 <= hi
-    by enumeration of active sets (Fractions). Returns list or None when infeasible."""
-    m = len(t)
-    ncon = m + 1
-    best = None
-    for mask in range(1 << ncon):
-        act = [(mask >> k) & 1 for k in range(ncon)]
-        if act[0] and lo is None:
-            continue
-        if act[m] and hi is None:
-            continue
-        # blocks of consecutive items joined by active gaps
-        x = [None] * m
-        lam = [Fraction(0)] * ncon
-        ok = True
-        i = 0
-        while i < m:
-            j = i
-            while j < m - 1 and act[j + 1]:
-                j += 1
-            off = [Fraction(0)]
-            for k in range(i, j):
-                off.append(off[-1] + gaps[k])
-            fixed = []
-            if i == 0 and act[0]:
-                fixed.append(lo + w[0] / 2)
-            if j == m - 1 and act[m]:
-                fixed.append(hi - w[m - 1] / 2 - off[-1])
-            if len(fixed) == 2 and fixed[0] != fixed[1]:
-                ok = False
-                break
-            if fixed:
-                p = fixed[0]
-            else:
-                p = sum(t[i + k] - off[k] for k in range(j - i + 1)) / (j - i + 1)
-            for k in range(j - i + 1):
-                x[i + k] = p + off[k]
-            i = j + 1
-        if not ok:
-            continue
-        # multipliers from stationarity: 2(x_i - t_i) - lam_i + lam_{i+1} = 0, inactive ones are 0
-        # solve left to right where determined
-        lam = [None] * ncon
-        for k in range(ncon):
-            if not act[k]:
-                lam[k] = Fraction(0)
-        changed = True
-        while changed:
-            changed = False
-            for i in range(m):
-                a, b = lam[i], lam[i + 1]
-                r = 2 * (x[i] - t[i])
-                if a is None and b is not None:
-                    lam[i] = r + b
-                    changed = True
-                elif b is None and a is not None:
-                    lam[i + 1] = a - r
-                    changed = True
-        if any(l is None for l in lam):
-            # both walls active on one block: one degree of freedom; take lam[0] = max(0, ...) heuristically
-            continue
-        if any(2 * (x[i] - t[i]) - lam[i] + lam[i + 1] != 0 for i in range(m)):
-            continue
-        if any(l < 0 for l in lam):
-            continue
-        feas = all(x[k + 1] - x[k] >= gaps[k] for k in range(m - 1))
-        if lo is not None:
-            feas = feas and x[0] - w[0] / 2 >= lo
-        if hi is not None:
-            feas = feas and x[m - 1] + w[m - 1] / 2 <= hi
-        if feas:
-            best = x
-            break
-    return best
+    _assert(props.SymSink(e), cfg, sy, out, want, lambda x: x)
 
 
 def replay(cfg, inputs, check, info, want):
@@ -292,51 +153,8 @@ def replay(cfg, inputs, check, info, want):
 
     nodes, opts, sy = build(cfg, val)
     out = ro.removeOverlap(list(nodes), opts)
-    F = Fraction
-    s = F(sy["s"])
-    lo = None if sy["lo"] is None else F(sy["lo"])
-    hi = None if sy["hi"] is None else F(sy["hi"])
-    m = len(out)
-    tg = [F(o.targetPos) for o in out]
-    cur = [F(o.currentPos) for o in out]
-    wd = [F(o.width) for o in out]
-    gaps = []
-    for a, b in zip(out, out[1:]):
-        sp = 2 if (a.isStub() and b.isStub()) else s
-        gaps.append((F(a.width) + F(b.width)) / 2 + sp)
+    sink = props.ConcSink()
+    _assert(sink, cfg, sy, out, want, lambda x: Fraction(x))
     desc = "kinds=%s walls=%r s=%s items(target,width,cur)=%s lo=%s hi=%s" % (
-        "".join(cfg["kinds"][o.vid] for o in out), cfg["walls"], float(s), [(float(a), float(b), float(c)) for a, b, c in zip(tg, wd, cur)],
-        None if lo is None else float(lo), None if hi is None else float(hi))
-    bad = []
-    fits = True
-    if lo is not None and hi is not None:
-        fits = sum(wd) + sum(g - (a + b) / 2 for g, a, b in zip(gaps, wd, wd[1:])) <= hi - lo
-    if want == "C01":
-        if any(tg[k] > tg[k + 1] for k in range(m - 1)):
-            bad.append("targets out of order")
-        for i in range(m):
-            acc = 0
-            for j in range(i + 1, m):
-                acc += gaps[j - 1]
-                if not cur[j] - cur[i] >= acc - 1 - EPS:
-                    bad.append("items %d,%d: centre distance %s < required %s - 1" % (i, j, float(cur[j] - cur[i]), float(acc)))
-        if any(c.denominator != 1 for c in cur):
-            bad.append("non-integer position")
-    if want == "C03":
-        if fits:
-            for k in range(m):
-                if lo is not None and not cur[k] - wd[k] / 2 >= lo - F(1, 2) - EPS_WALL:
-                    bad.append("item %d left edge %s < lower bound %s - 0.5 although the layer fits" % (k, float(cur[k] - wd[k] / 2), float(lo)))
-                if hi is not None and not cur[k] + wd[k] / 2 <= hi + F(1, 2) + EPS_WALL:
-                    bad.append("item %d right edge %s > upper bound %s + 0.5 although the layer fits" % (k, float(cur[k] + wd[k] / 2), float(hi)))
-        if m > 1 and not cur[m - 1] - cur[0] >= sum(gaps) - 1 - EPS:
-            bad.append("span %s < sum of required gaps %s - 1 (excess absorbed as overlap)" % (float(cur[m - 1] - cur[0]), float(sum(gaps))))
-    if want == "C02":
-        if fits:
-            x = exact_qp(tg, gaps, wd, lo, hi)
-            if x is None:
-                return dict(violated=False, detail="exact QP oracle found no optimum (infeasible?) " + desc, signature="")
-            for k in range(m):
-                if abs(cur[k] - x[k]) > F(1, 2) + F(1, 100):
-                    bad.append("item %d placed at %s, least-squares optimum %s" % (k, float(cur[k]), float(x[k])))
-    return dict(violated=bool(bad), detail="; ".join(bad[:4]) + " | " + desc, signature="layer:%s:%s:%s" % (want, check, "".join(cfg["kinds"])))
+        "".join(cfg["kinds"][o.vid] for o in out), cfg["walls"], sy["s"], [(sy["t"][o.vid], sy["w"][o.vid], o.currentPos) for o in out], sy["lo"], sy["hi"])
+    return dict(violated=bool(sink.bad), detail="; ".join(sink.bad[:4]) + " | " + desc, signature="layer:%s:%s:%s" % (want, ",".join(sorted(set(b.split(":")[0].split(" ")[0] for b in sink.bad))), cfg["kinds"]))
